@@ -41,3 +41,34 @@ def run_configs(pid, tier, level, body, explanation, rule_text, not_decided=(), 
             diffs.append(f"{cfg_}: only-default={sorted(a - b)[:3]} only-{cfg_}={sorted(b - a)[:3]}")
         ck.fail("CONFIG", "cross-config", "rule outcomes differ between feature configurations: " + "; ".join(diffs))
     return ck
+
+
+IMPLICIT_TRAITS = ("std::ops::Drop", "std::clone::Clone", "std::ops::Deref", "std::ops::DerefMut", "std::cmp::PartialEq", "std::cmp::Eq", "std::cmp::PartialOrd", "std::fmt::Debug", "std::fmt::Display", "std::borrow::Borrow", "std::convert::AsRef", "std::convert::AsMut", "std::hash::Hash")
+EFFECT_CALLEES = ("merlin::Transcript", "TranscriptProtocol", "merlin::TranscriptRng", "rand_core::RngCore", "rand::Rng", "ark_std::UniformRand", "UniformRand::rand", "rand_core::SeedableRng")
+
+
+def hidden_effects_rule(ck, F, rule):
+    """Code the compiler calls implicitly (drop glue, `clone()`, `==`, deref, formatting; `Default` is left out: it is only ever called explicitly and the crate's two Default impls derive generators from a fixed seed) is not followed by the
+    effect interpreter the way an explicit call is (drop glue not at all).  So such impls must be effect-free with respect to
+    the protocol: no transcript operation and no random draw is reachable (MIR call graph, resolved callees) from any
+    crate-local impl of these traits.  Expected: zero.  Positive control: the crate has Drop impls (zeroising) that are walked."""
+    from .. import panic as PN
+
+    walked = 0
+    for imp in F.items["impls"]:
+        tr = (imp["trait"] or "").split("<")[0]
+        if tr not in IMPLICIT_TRAITS:
+            continue
+        entries = [p_ for p_ in imp["items"] if p_ in F.mir]
+        if not entries:
+            continue
+        seen, _ = PN.reach(F, entries)
+        bad = []
+        for p_ in seen:
+            walked += 1
+            for tgt, f, t_ in PN.local_callees(F, p_):
+                full = (f.get("resolved") or "") + " " + (f.get("path") or "")
+                if any(x in full for x in EFFECT_CALLEES):
+                    bad.append((p_, f.get("path")))
+        ck.require(not bad, rule, f"implicit:{tr.split('::')[-1]}:{imp['self_ty'].split('<')[0]}", f"an implicitly invoked impl ({tr} for {imp['self_ty']}) reaches a transcript operation or a random draw: {bad[:3]} - such effects are invisible at the call sites the schedule and nonce rules read", FX.short(imp.get("sp")))
+    ck.floor("implicitly invoked impl bodies walked", walked, 3)
